@@ -2,6 +2,8 @@ SPECIFICATION Spec
 CONSTANTS
   MaxDet = 2
   EqualLabels = TRUE
+  EmitMod = 1
+  EmitRes = 0
   Emit = FALSE
 INVARIANT SwapInvolution
 INVARIANT ProbeNeutral
